@@ -150,6 +150,26 @@ impl Prop for C16 {
             Part { name: "nullable-shapes".into(), strategy: s2, cases: tier.pick(150_000, 3_000_000) },
         ]
     }
+    fn enumerations(&self, tier: Tier) -> Vec<(String, String, Box<dyn Iterator<Item = AstCase> + Send>)> {
+        // nullability is decided at compile time from the shape of the pattern and the flags: both finite scopes of C01
+        let size = tier.pick(4, 5);
+        let nodes = crate::enumerate::up_to(&super::c01::enum_cfg(), size);
+        let inputs = crate::enumerate::inputs(&['a', 'b', '\n'], 2);
+        let flagsets: Vec<String> = vec!["", "m", "s", "ms", "i"].into_iter().map(String::from).collect();
+        let scope = format!("all {} ASTs of size <= {} over the atoms and quantifiers of C01's first scope x flags {{'', m, s, ms, i}} x all {} inputs over {{a,b,LF}} of length <= 2", nodes.len(), size, inputs.len());
+        let it = nodes.into_iter().flat_map(move |node| {
+            let inputs = inputs.clone();
+            flagsets.clone().into_iter().map(move |f| AstCase { node: node.clone(), flags: f, inputs: Inputs::Lit(inputs.clone()) })
+        });
+        let (name, scope2, it2) = super::c01::macro_enumeration(tier);
+        let it2 = it2.map(|mut c| {
+            if let Inputs::Lit(v) = &mut c.inputs {
+                v.retain(|s| s.chars().count() <= 3);
+            }
+            c
+        });
+        vec![("exhaustive-small".into(), scope, Box::new(it)), (name, format!("{scope2} (inputs of length <= 3 only)"), Box::new(it2))]
+    }
     fn check(&self, case: &AstCase, ctx: &mut Ctx) -> Verdict {
         check_nullable(case, ctx)
     }
